@@ -19,12 +19,13 @@ Span(c, line) ==
     IF line = c.link_line THEN {<<line, ch>> : ch \in c.link_start..(c.link_end - 1)}
     ELSE IF line = c.ref_line THEN {<<line, ch>> : ch \in 0..5}            \* "[r](2)"
     ELSE IF line = c.item_line THEN {<<line, ch>> : ch \in 7..12}          \* "- item [i](2)"
+    ELSE IF line = c.quote_line THEN {<<line, ch>> : ch \in 2..7}          \* "> [q](2)"
     ELSE {}
 Window(c) == UNION {{<<line, ch>> : ch \in 0..(c.link_end + 6)} : line \in 0..(c.last_line + 1)}
 Expected(c) == (UNION {Span(c, line) : line \in 0..(c.last_line + 1)}) \cap Window(c)
 
 \* (with nothing before or after it the link under test is itself a block reference)
-RefBlockLines(c) == IF c.prefix = <<>> /\ c.suffix = <<>> /\ c.wrap = "none" THEN <<c.link_line, c.ref_line>> ELSE <<c.ref_line>>
+RefBlockLines(c) == IF c.prefix = <<>> /\ c.suffix = <<>> /\ c.wrap = "none" THEN <<c.link_line, c.ref_line, c.quote_line>> ELSE <<c.ref_line, c.quote_line>>
 
 Fired(s) == {<<p[1], p[2]>> : p \in Range(s)}
 
@@ -41,7 +42,7 @@ Reasons(e) ==
         \cup {<<"rename-range-wrong", q>> :
                  q \in {r \in Range(e.prep) : r[1] = c.link_line /\ (r[3] # c.link_line \/ r[4] # c.url_start \/ r[5] # c.link_line \/ r[6] # c.url_end)}}
         \* locations name the line where the block really is
-        \cup (IF e.ref_lines # <<c.block_line, c.ref_line, c.item_line>> THEN {<<"reference-lines", e.ref_lines>>} ELSE {})
+        \cup (IF e.ref_lines # <<c.block_line, c.ref_line, c.item_line, c.quote_line>> THEN {<<"reference-lines", e.ref_lines>>} ELSE {})
         \cup (IF e.hint_lines # RefBlockLines(c) THEN {<<"hint-lines", e.hint_lines>>} ELSE {})
         \cup (IF e.sym_lines # <<c.head_line>> THEN {<<"symbol-lines", e.sym_lines>>} ELSE {})
         \* code actions offered at a line operate on the block that covers that line
